@@ -66,6 +66,7 @@ fn main() {
         "c19child" => c19::child(&args[2..]),
         "c19limit" => c19::child_limit(&args[2..]),
         "c19seq" => c19::child_use_then_set(&args[2..]),
+        "c19root" => c19::child_root_setter(&args[2..]),
         other => {
             eprintln!("unknown property {other}");
             2
